@@ -132,6 +132,27 @@ def raising_parse(name, text, in_span, position, kth):
         return 'EXC %s: %s' % (type(e).__name__, e)
 
 
+RENDER_RAISE_DOC = '- a **boom** b\n- c\n\n> q **x**\n\n1. d\n\n   **y** e\n'
+
+
+def raising_render(name):
+    """a RENDER under renderer `name` that raises while the children of a tight list are being written (the parse completes)"""
+    import mistletoe
+    R, kw = get(name)
+
+    class RR(R):
+        def render_strong(self, token):
+            raise Boom()
+    try:
+        with RR(**kw) as r:
+            r.render(mistletoe.Document(RENDER_RAISE_DOC))
+        return 'completed'
+    except Boom:
+        return 'raised'
+    except Exception as e:
+        return 'EXC %s: %s' % (type(e).__name__, e)
+
+
 def history_worker(h):
     """run a history in THIS process; record what is observable after every step"""
     obs = []
@@ -141,6 +162,8 @@ def history_worker(h):
             for b in body:
                 if b[0] == 'render':
                     obs.append(('render', name, b[1], render(name, b[1]), lists(), scratch()))
+                elif b[0] == 'render_raise':
+                    obs.append(('raise', name, ['render_raise'], raising_render(name), lists(), scratch()))
                 else:
                     obs.append(('raise', name, b[1:], raising_parse(name, *b[1:]), lists(), scratch()))
         else:
@@ -159,7 +182,9 @@ def gen_history(rng, maxlen):
             name = rng.choice(names)
             body = []
             for _b in range(rng.randint(1, 2)):
-                if rng.random() < 0.45:
+                if rng.random() < 0.15:
+                    body.append(('render_raise',))
+                elif rng.random() < 0.45:
                     body.append(('raise', rng.choice(RAISE_DOCS), rng.random() < 0.5, rng.randint(0, 11), rng.randint(1, 12)))
                 else:
                     body.append(('render', rng.choice(PROBES)))
@@ -203,6 +228,10 @@ def run(ctx, only=None):
         for first, then in ((na, nb), (nb, na)):
             hs.append([('session', first, [('render', p) for p in PROBES]), ('session', then, [('render', p) for p in PROBES]),
                        ('session', first, [('render', p) for p in PROBES])])
+    # systematic: a render that raises inside a tight list, then every probe under a NEW instance of an HTML-based renderer and of the others
+    for n1 in ['html', 'toc', 'mathjax', 'pygments', 'wiki', 'markdown', 'latex']:
+        for n2 in ['html', 'html_nohtml', 'toc', 'latex', 'markdown']:
+            hs.append([('session', n1, [('render_raise',)]), ('session', n2, [('render', p) for p in PROBES])])
     for _ in range(400 if ctx.quick() else 10000):
         hs.append(gen_history(rng, 4 if ctx.quick() else 6))
     with mp.Pool(core.NPROC, maxtasksperchild=20) as pool:
